@@ -26,6 +26,21 @@ def sh(cmd, cwd=None, shell=False):
     return p.returncode, p.stdout
 
 
+def put(demo, target):
+    if os.path.isdir(demo):
+        shutil.copytree(demo, target)
+    else:
+        os.makedirs(os.path.dirname(target), exist_ok=True)
+        shutil.copy(demo, target)
+
+
+def drop(target):
+    if os.path.isdir(target):
+        shutil.rmtree(target)
+    else:
+        os.remove(target)
+
+
 def main():
     if "--" not in sys.argv:
         print(__doc__)
@@ -41,14 +56,13 @@ def main():
         sys.exit(1)
     rc_build, out_build = sh("go build ./... && go test -vet=off -count=1 ./...", wt, shell=True)
     suite_ok = rc_build == 0 and "FAIL" not in out_build
-    os.makedirs(os.path.dirname(os.path.join(wt, dest)), exist_ok=True)
-    shutil.copy(demo, os.path.join(wt, dest))
+    put(demo, os.path.join(wt, dest))
     rc_with, out_with = sh(cmd, wt)
-    os.remove(os.path.join(wt, dest))
+    drop(os.path.join(wt, dest))
     sh(["git", "checkout", "-q", "--", "."], wt)
-    shutil.copy(demo, os.path.join(wt, dest))
+    put(demo, os.path.join(wt, dest))
     rc_without, out_without = sh(cmd, wt)
-    os.remove(os.path.join(wt, dest))
+    drop(os.path.join(wt, dest))
     sh(["git", "checkout", "-q", "--", "."], wt)
     sh(["git", "clean", "-fdq"], wt)
     print(f"suite with patch: {'ok' if suite_ok else 'FAILS'}; demo with patch: exit {rc_with}; demo without patch: exit {rc_without}")
@@ -62,7 +76,7 @@ def main():
     d = os.path.join("/verif/seeded", name)
     os.makedirs(d, exist_ok=True)
     shutil.copy(patch, os.path.join(d, "patch.diff"))
-    shutil.copy(demo, os.path.join(d, os.path.basename(demo)))
+    put(demo, os.path.join(d, os.path.basename(demo.rstrip("/"))))
     notes = os.path.join(os.path.dirname(patch), "notes.md")
     if os.path.exists(notes):
         shutil.copy(notes, os.path.join(d, "notes.md"))
